@@ -362,6 +362,8 @@ impl Parse for ConversionsAttribute {
                 if !convs.tys.empty_or_trailing() {
                     convs.tys.push_punct(comma);
                 }
+            } else if !input.is_empty() {
+                return Err(input.error("expected `,`"));
             }
 
             Ok(())
